@@ -69,3 +69,55 @@ pub broadcast proof fn lemma_push_set_b<T>(s: Seq<T>, x: T)
         assert(s.push(x)[s.len() as int] == x);
     }
 }
+// ---- script inputs: the witness table `required_witnesses.scripts` (script hash -> input -> witness, None = "still missing")
+opaque_types!(NativeScriptSourceEnum, PlutusScriptSourceEnum, PlutusWitnessRest);
+clone_eq!(NativeScriptSourceEnum, PlutusScriptSourceEnum, PlutusWitnessRest, ScriptHash);
+pub struct NativeScriptSource(pub NativeScriptSourceEnum);
+pub struct PlutusWitness { pub script: PlutusScriptSourceEnum, pub rest: PlutusWitnessRest }
+impl Clone for PlutusWitness { #[verifier::external_body] fn clone(&self) -> (r: Self) ensures r == *self { unimplemented!() } }
+impl Clone for ScriptWitnessType { #[verifier::external_body] fn clone(&self) -> (r: Self) ensures r == *self { unimplemented!() } }
+impl NativeScriptSource {
+    pub uninterp spec fn hash_of(&self) -> ScriptHash;
+    #[verifier::external_body] pub fn script_hash(&self) -> (r: ScriptHash) ensures r == self.hash_of() { unimplemented!() }
+}
+impl PlutusScriptSourceEnum {
+    pub uninterp spec fn hash_of(&self) -> ScriptHash;
+    #[verifier::external_body] pub fn script_hash(&self) -> (r: ScriptHash) ensures r == self.hash_of() { unimplemented!() }
+}
+pub type WitMap = Map<TransactionInput, Option<ScriptWitnessType>>;
+impl ScriptsTable {
+    pub uninterp spec fn tbl(&self) -> Map<ScriptHash, WitMap>;
+    /// the witness registered for `input` under `h` (None: no entry or still missing)
+    pub open spec fn wit(&self, h: ScriptHash, input: TransactionInput) -> Option<ScriptWitnessType> {
+        if self.tbl().contains_key(h) && self.tbl()[h].contains_key(input) { self.tbl()[h][input] } else { None }
+    }
+}
+/// `entry(h).or_insert(empty).insert(input, w)` as a map update
+pub open spec fn tbl_put(t: Map<ScriptHash, WitMap>, h: ScriptHash, input: TransactionInput, w: Option<ScriptWitnessType>) -> Map<ScriptHash, WitMap> {
+    t.insert(h, (if t.contains_key(h) { t[h] } else { Map::empty() }).insert(input, w))
+}
+// ---- UTxO entry points: the output of the UTxO supplies address, amount and the size of its reference script
+opaque_types!(DataOption, CborContainerType, ScriptRef);
+impl ScriptRef {
+    pub uninterp spec fn unwrapped(&self) -> Seq<u8>;
+    #[verifier::external_body] pub fn to_unwrapped_bytes(&self) -> (r: Vec<u8>) ensures r@ == self.unwrapped() { unimplemented!() }
+}
+impl RewardAddress {
+    pub uninterp spec fn pay(&self) -> Credential;
+    #[verifier::external_body] pub fn payment_cred(&self) -> (r: Credential) ensures r == self.pay() { unimplemented!() }
+}
+impl Clone for Credential { #[verifier::external_body] fn clone(&self) -> (r: Self) ensures r == *self { unimplemented!() } }
+impl BuilderError {
+    pub const ScriptAddressTypeMismatch: BuilderError = BuilderError { };
+    pub const ScriptAddressCredentialMismatch: BuilderError = BuilderError { };
+    pub const RegularAddressTypeMismatch: BuilderError = BuilderError { };
+}
+/// size of the reference script an output carries, if any
+pub open spec fn ref_size(o: TransactionOutput) -> Option<usize> { match o.script_ref { Some(s) => Some(s.unwrapped().len() as usize), None => None } }
+/// a script-locked output: a Shelley payment address (base / enterprise / pointer) whose payment credential is a script hash
+pub open spec fn script_locked(a: Address) -> bool {
+    match a.0 {
+        AddrType::Base(x) => x.payment.0 is Script, AddrType::Enterprise(x) => x.payment.0 is Script, AddrType::Ptr(x) => x.payment.0 is Script,
+        _ => false,
+    }
+}
